@@ -240,8 +240,10 @@ func (snm *shardNotificationsManager) getNotifications() error {
 		return err
 	}
 
+	// Once the position was established by the first (dummy) notification, we always
+	// resume from it: it can also be -1, when the subscription started on an empty shard
 	var startOffsetExclusive *int64
-	if snm.lastOffsetReceived >= 0 {
+	if snm.initialized || snm.lastOffsetReceived >= 0 {
 		startOffsetExclusive = &snm.lastOffsetReceived
 	}
 
